@@ -4,6 +4,8 @@ import (
 	"math"
 	"math/big"
 
+	at "github.com/DanielSvub/anytype"
+
 	"pgregory.net/rapid"
 )
 
@@ -20,11 +22,21 @@ type C18Case struct {
 	Class string    `json:"class"` // "exact", "general", "fullrange", "intfamily"
 	Elems []NumSpec `json:"elems"`
 	Route int       `json:"route,omitempty"` // construction route (see listByRoute)
+	Muts  []NumMut  `json:"muts,omitempty"`  // mutations after the first evaluation; everything is evaluated again after each
+}
+
+type NumMut struct {
+	Op string  `json:"op"`
+	A  int     `json:"a,omitempty"`
+	X  NumSpec `json:"x"`
 }
 
 func GenC18(t *rapid.T) *C18Case {
 	c := &C18Case{Class: []string{"exact", "general", "fullrange", "intfamily"}[pick(t, "class", 30, 30, 15, 25)], Route: drawInt(t, 0, numListRoutes-1, "route")}
 	n := []int{0, 1, 1, 2, 2, 3, 4, 5, 6, 8, 10, 15, 20, 64, 65, 100}[drawIdx(t, 16, "n")]
+	if oneIn(t, 40, "huge") {
+		n = []int{255, 256, 257, 258, 259, 1001}[drawIdx(t, 6, "hugen")] // block-wise / chunked folds
+	}
 	long := n > 20 // long lists: small magnitudes so that no product leaves the float64 range
 	sign := drawInt(t, 0, 3, "sign") // 0 mixed, 1 all negative, 2 all positive, 3 mixed
 	apply := func(x float64) float64 {
@@ -36,13 +48,13 @@ func GenC18(t *rapid.T) *C18Case {
 		}
 		return x
 	}
-	for i := 0; i < n; i++ {
+	if c.Class == "exact" && n > 10 {
+		n = 10
+	}
+	one := func() {
 		isInt := drawInt(t, 0, 2, "isint") > 0
 		switch c.Class {
 		case "exact":
-			if n > 10 {
-				n = 10
-			}
 			if isInt {
 				c.Elems = append(c.Elems, NumSpec{IsInt: true, I: int64(apply(float64(drawInt(t, -12, 12, "i"))))})
 			} else {
@@ -111,14 +123,102 @@ func GenC18(t *rapid.T) *C18Case {
 			}
 		}
 	}
-	if len(c.Elems) > n {
-		c.Elems = c.Elems[:n]
+	for i := 0; i < n; i++ {
+		one()
+	}
+	// later mutations with values of the same class; the aggregates are evaluated again after each
+	if drawBool(t, "mutate") {
+		ops := []string{"add", "insert", "replace", "delete", "pop", "reverse", "insert", "replace"}
+		for i, k := 0, drawInt(t, 1, 3, "nmuts"); i < k; i++ {
+			before := len(c.Elems)
+			one()
+			x := c.Elems[before]
+			c.Elems = c.Elems[:before]
+			c.Muts = append(c.Muts, NumMut{Op: ops[drawIdx(t, len(ops), "mop")], A: genRaw(t), X: x})
+		}
 	}
 	return c
 }
 
+func numValue(e NumSpec) any {
+	switch {
+	case e.Other != nil:
+		return Build(*e.Other)
+	case e.IsInt:
+		return int(e.I)
+	}
+	return math.Float64frombits(e.F)
+}
+
 func CheckC18(c *C18Case, st *Stats) error {
 	st.Count("class." + c.Class)
+	l, err := verifyAggregates(c, c.Elems, nil, st)
+	if err != nil || l == nil {
+		return err
+	}
+	model := append([]NumSpec{}, c.Elems...)
+	for i, m := range c.Muts {
+		n := len(model)
+		if m.X.Other != nil && c.Class != "intfamily" {
+			continue
+		}
+		if !m.X.IsInt && m.X.Other == nil {
+			if f := math.Float64frombits(m.X.F); f != f || math.IsInf(f, 0) {
+				continue
+			}
+		}
+		switch m.Op {
+		case "add":
+			l.Add(numValue(m.X))
+			model = append(model, m.X)
+		case "insert":
+			at := m.A % (n + 1)
+			if n > 1 && m.A%3 != 0 {
+				at = m.A % n // strictly inside (not the append position)
+			}
+			l.Insert(at, numValue(m.X))
+			model = append(model, NumSpec{})
+			copy(model[at+1:], model[at:])
+			model[at] = m.X
+		case "replace":
+			if n == 0 {
+				continue
+			}
+			l.Replace(m.A%n, numValue(m.X))
+			model[m.A%n] = m.X
+		case "delete":
+			if n == 0 {
+				continue
+			}
+			l.Delete(m.A % n)
+			model = append(model[:m.A%n:m.A%n], model[m.A%n+1:]...)
+		case "pop":
+			if n == 0 {
+				continue
+			}
+			l.Pop()
+			model = model[:n-1]
+		case "reverse":
+			l.Reverse()
+			for a, b := 0, len(model)-1; a < b; a, b = a+1, b-1 {
+				model[a], model[b] = model[b], model[a]
+			}
+		default:
+			continue
+		}
+		st.Count("reevaluated_after." + m.Op)
+		if _, err := verifyAggregates(c, model, l, nil); err != nil {
+			return errf("after mutation %d (%s): %v", i, m.Op, err)
+		}
+	}
+	return nil
+}
+
+// verifyAggregates evaluates all nine aggregates on the list holding elemsSpec (built here when l is nil).
+func verifyAggregates(c *C18Case, elemsSpec []NumSpec, l at.List, st *Stats) (at.List, error) {
+	if st == nil {
+		st = NewStats() // statistics of re-evaluations are not recorded
+	}
 	shape := V{K: KList}
 	var elems []any
 	var xs []float64 // numeric elements taken as float64
@@ -126,11 +226,11 @@ func CheckC18(c *C18Case, st *Stats) error {
 	nonNumeric := false
 	negatives, mixture, interleaved := false, false, false
 	sawInt, sawFloat := false, false
-	for _, e := range c.Elems {
+	for _, e := range elemsSpec {
 		switch {
 		case e.Other != nil:
 			if c.Class != "intfamily" {
-				return nil
+				return nil, nil
 			}
 			elems = append(elems, Build(*e.Other))
 			shape.L = append(shape.L, V{K: e.Other.K, B: e.Other.B, S: e.Other.S})
@@ -150,7 +250,7 @@ func CheckC18(c *C18Case, st *Stats) error {
 		default:
 			f := math.Float64frombits(e.F)
 			if f != f || math.IsInf(f, 0) {
-				return nil // finite floats only
+				return nil, nil // finite floats only
 			}
 			elems = append(elems, f)
 			shape.L = append(shape.L, VFloat(f))
@@ -165,10 +265,12 @@ func CheckC18(c *C18Case, st *Stats) error {
 		}
 	}
 	mixture = sawInt && sawFloat
-	l := listByRoute(shape, elems, c.Route%numListRoutes, len(elems))
+	if l == nil {
+		l = listByRoute(shape, elems, c.Route%numListRoutes, len(elems))
+	}
 	before, err := TakeIdentSnap(l)
 	if err != nil {
-		return err
+		return nil, err
 	}
 	n := len(xs)
 
@@ -186,20 +288,20 @@ func CheckC18(c *C18Case, st *Stats) error {
 		}
 	}
 	if g := l.IntSum(); g != wantSum {
-		return errf("IntSum = %d, expected %d on %s", g, wantSum, before.Tree.Show())
+		return nil, errf("IntSum = %d, expected %d on %s", g, wantSum, before.Tree.Show())
 	}
 	if g := l.IntProd(); g != wantProd {
-		return errf("IntProd = %d, expected %d on %s", g, wantProd, before.Tree.Show())
+		return nil, errf("IntProd = %d, expected %d on %s", g, wantProd, before.Tree.Show())
 	}
 	if g := l.IntMin(); g != wantMin {
-		return errf("IntMin = %d, expected %d on %s", g, wantMin, before.Tree.Show())
+		return nil, errf("IntMin = %d, expected %d on %s", g, wantMin, before.Tree.Show())
 	}
 	if g := l.IntMax(); g != wantMax {
-		return errf("IntMax = %d, expected %d on %s", g, wantMax, before.Tree.Show())
+		return nil, errf("IntMax = %d, expected %d on %s", g, wantMax, before.Tree.Show())
 	}
 
 	// ---- float aggregates: all-numeric lists only ------------------------------
-	if !nonNumeric && (c.Class != "intfamily" || len(c.Elems) == len(xs)) {
+	if !nonNumeric && (c.Class != "intfamily" || len(elemsSpec) == len(xs)) {
 		// Min / Max are exact in every class
 		mn, mx := 0.0, 0.0
 		for i, x := range xs {
@@ -211,10 +313,10 @@ func CheckC18(c *C18Case, st *Stats) error {
 			}
 		}
 		if g := l.Min(); g != mn {
-			return errf("Min = %v, expected %v on %s", g, mn, before.Tree.Show())
+			return nil, errf("Min = %v, expected %v on %s", g, mn, before.Tree.Show())
 		}
 		if g := l.Max(); g != mx {
-			return errf("Max = %v, expected %v on %s", g, mx, before.Tree.Show())
+			return nil, errf("Max = %v, expected %v on %s", g, mx, before.Tree.Show())
 		}
 		if c.Class == "exact" || c.Class == "general" {
 			exactSum := new(big.Float).SetPrec(4000)
@@ -232,19 +334,19 @@ func CheckC18(c *C18Case, st *Stats) error {
 			gotSum, gotProd := l.Sum(), l.Prod()
 			if c.Class == "exact" {
 				if gotSum != sumF {
-					return errf("Sum = %v, the exact sum is %v on %s", gotSum, sumF, before.Tree.Show())
+					return nil, errf("Sum = %v, the exact sum is %v on %s", gotSum, sumF, before.Tree.Show())
 				}
 				if gotProd != prodF {
-					return errf("Prod = %v, the exact product is %v on %s", gotProd, prodF, before.Tree.Show())
+					return nil, errf("Prod = %v, the exact product is %v on %s", gotProd, prodF, before.Tree.Show())
 				}
 			} else {
 				tolS := 1.01 * float64(n+1) * u * absSum
 				if d := new(big.Float).Sub(new(big.Float).SetPrec(4000).SetFloat64(gotSum), exactSum); bigAbs(d) > tolS {
-					return errf("Sum = %v, the exact sum is %v (difference beyond the rounding bound %g) on %s", gotSum, sumF, tolS, before.Tree.Show())
+					return nil, errf("Sum = %v, the exact sum is %v (difference beyond the rounding bound %g) on %s", gotSum, sumF, tolS, before.Tree.Show())
 				}
 				tolP := 1.01 * float64(n+1) * u * math.Abs(prodF)
 				if d := new(big.Float).Sub(new(big.Float).SetPrec(4000).SetFloat64(gotProd), exactProd); bigAbs(d) > tolP && !(prodF == 0 && gotProd == 0) {
-					return errf("Prod = %v, the exact product is %v (difference beyond the rounding bound %g) on %s", gotProd, prodF, tolP, before.Tree.Show())
+					return nil, errf("Prod = %v, the exact product is %v (difference beyond the rounding bound %g) on %s", gotProd, prodF, tolP, before.Tree.Show())
 				}
 			}
 			if n > 0 {
@@ -253,29 +355,29 @@ func CheckC18(c *C18Case, st *Stats) error {
 				gotAvg := l.Avg()
 				if c.Class == "exact" {
 					if gotAvg != avgF {
-						return errf("Avg = %v, the exact mean is %v on %s", gotAvg, avgF, before.Tree.Show())
+						return nil, errf("Avg = %v, the exact mean is %v on %s", gotAvg, avgF, before.Tree.Show())
 					}
 				} else {
 					tolA := 1.01*float64(n+1)*u*absSum/float64(n) + 2*u*math.Abs(avgF)
 					if d := new(big.Float).Sub(new(big.Float).SetPrec(4000).SetFloat64(gotAvg), exactAvg); bigAbs(d) > tolA {
-						return errf("Avg = %v, the exact mean is %v (difference beyond the rounding bound %g) on %s", gotAvg, avgF, tolA, before.Tree.Show())
+						return nil, errf("Avg = %v, the exact mean is %v (difference beyond the rounding bound %g) on %s", gotAvg, avgF, tolA, before.Tree.Show())
 					}
 				}
 			}
 		}
 		if n == 0 {
 			if l.Sum() != 0 || l.Prod() != 1 {
-				return errf("on an empty list Sum = %v (want 0) and Prod = %v (want 1)", l.Sum(), l.Prod())
+				return nil, errf("on an empty list Sum = %v (want 0) and Prod = %v (want 1)", l.Sum(), l.Prod())
 			}
 			st.Count("empty")
 		}
 	}
 	after, err := TakeIdentSnap(l)
 	if err != nil {
-		return err
+		return nil, err
 	}
 	if !before.Same(after) {
-		return errf("an aggregate modified the list: %s -> %s", before.Tree.Show(), after.Tree.Show())
+		return nil, errf("an aggregate modified the list: %s -> %s", before.Tree.Show(), after.Tree.Show())
 	}
 	qualifying := n
 	if c.Class == "intfamily" {
@@ -301,10 +403,10 @@ func CheckC18(c *C18Case, st *Stats) error {
 	if interleaved {
 		st.Count("non_ints_interleaved")
 	}
-	if len(ints) == 0 && len(c.Elems) > 0 {
+	if len(ints) == 0 && len(elemsSpec) > 0 {
 		st.Count("no_ints")
 	}
-	return nil
+	return l, nil
 }
 
 func bigAbs(d *big.Float) float64 {
